@@ -215,6 +215,9 @@ func famDisturb(w *World, c *Case, rng *rand.Rand) {
 	if len(ds) == 0 {
 		ds = []*RPCSpec{d}
 	}
+	for _, x := range ds {
+		x.CtxCause = rng.Intn(3) == 0
+	}
 	if gated {
 		w.Conn.SetGated(true)
 	}
